@@ -371,11 +371,48 @@ def evalbuild_cases(ctx, n):
     ]
     out, skipped = [], 0
     trees = list(fixed)
+    # terms of inequivalent dimensions written under Min / Max / + and built by ordinary evaluation: SymPy asks the quantities
+    # to compare themselves (quantities.py `_eval_is_ge`); quantities of inequivalent dimensions are not comparable, the node
+    # stays as written and construction is refused.  Only finite non-zero leaves: a zero or infinite term legitimately decides
+    # a Min/Max whatever its dimension (it is of any dimension).
+    def mixed(kind, k):
+        vec, _a = rand_dimvec(rng)
+        vec = tuple(Fraction(int(x)) for x in vec)
+        for _ in range(10):
+            other, _a = rand_dimvec(rng)
+            other = tuple(Fraction(int(x)) for x in other)
+            if other != vec:
+                break
+        # all leaves of one sign: with mixed signs SymPy orders the terms by their sign claims alone, whatever the dimensions
+        # (known finding C05:evalbuild:sign-decided, see the two curated cases below)
+        sgn = rng.choice([1, -1])
+        finite = [sgn * abs(v) for v in EV_VALUES if v not in (0, oo, -oo)]
+        kids = [("q", Quantity(rng.choice(finite) * unit_expr_from_vec(vec, 0, rng))) for _ in range(k)]
+        kids.insert(rng.randrange(len(kids) + 1), ("q", Quantity(rng.choice(finite) * unit_expr_from_vec(other, 0, rng))))
+        t = (kind, kids)
+        w = rng.random()
+        if w < 0.2:
+            return ("abs", t)
+        if w < 0.4:
+            return ("mul", [("q", Quantity(2 * units.meter)), t])
+        return t
+    trees += [("max", [("q", Quantity(1 * m)), ("q", Quantity(2 * units.second))]),
+              ("min", [("q", Quantity(5 * m)), ("q", Quantity(2 * units.second)), ("q", Quantity(7 * m))]),
+              ("max", [("q", Quantity(-1 * units.kilogram)), ("q", Quantity(-2 * units.second))]),
+              # mixed signs (known finding): decided by SymPy from `is_positive` / `is_negative` before any dimension is looked at
+              ("named", "sign-decided:Max(Quantity(-1 kg), Quantity(2 s))", ("max", [("q", Quantity(-1 * units.kilogram)), ("q", Quantity(2 * units.second))])),
+              ("named", "sign-decided:Min(Quantity(-3 m), Quantity(2 s))", ("min", [("q", Quantity(-3 * m)), ("q", Quantity(2 * units.second))]))]
+    for _ in range(max(20, n // 5)):
+        t = mixed(rng.choice(["min", "max", "max", "min", "add"]), rng.choice([1, 2, 3]))
+        trees.append(t)
     for _ in range(n):
         vec, _a = rand_dimvec(rng)
         vec = tuple(Fraction(int(x)) for x in vec)
         trees.append(ev_tree(rng, vec, rng.choice([1, 2, 2, 3])))
     for t in trees:
+        name = None
+        if t[0] == "named":
+            name, t = t[1], t[2]
         if ev_value(t) is None:
             skipped += 1
             continue
@@ -403,7 +440,7 @@ def evalbuild_cases(ctx, n):
             shown = f"<building raised {type(e).__name__}: {e}>"
         out.append({"lit": f"({lit}, {olit}, {o2lit})", "expr": un, "obs": obs, "obs2": obs2, "stream": "evalbuild",
             "desc": f"{un} with { {str(q): str(q.scale_factor) for q in un.atoms(SymQuantity)} }, built by evaluation as {shown}",
-            "value": str(ev_value(t))})
+            "value": str(ev_value(t)), "name": name})
     return out, skipped
 
 
@@ -634,7 +671,7 @@ def run(ctx):
     for i in bad_ev[:20]:
         c = ev[i]
         ok_collect = spec_contradicted(c["expr"], c["obs"])
-        ctx.violation(f"C05:evalbuild:{c['lit'][:300]}",
+        ctx.violation(f"C05:evalbuild:{c['name'] or c['lit'][:300]}",
             f"Quantity(expr) is not the value of expr when expr is built by ordinary evaluation: {c['desc'][:300]} has value "
             f"{c['value']}, Quantity gave {c['obs2'][1:]}" if ok_collect is None and c["obs2"][0] == "ok"
             else f"model and implementation disagree on {c['desc'][:200]}",
